@@ -208,8 +208,28 @@ func BuildSchemaValidation(schema *openapi3.SchemaRef, validationString string, 
 				schema.Value.Enum = nil
 			} else {
 				schema.Value.Enum = make([]interface{}, 0, len(enumValues))
-				for _, v := range enumValues {
-					schema.Value.Enum = append(schema.Value.Enum, v)
+				// Enum values must be of the schema's declared type, exactly as for 'oneof'
+				switch specType {
+				case "integer":
+					for _, v := range enumValues {
+						if val, err := strconv.ParseInt(v, 10, 64); err == nil {
+							schema.Value.Enum = append(schema.Value.Enum, val)
+						} else {
+							logger.Warn("Invalid integer value in enum: %s", v)
+						}
+					}
+				case "number":
+					for _, v := range enumValues {
+						if val, err := strconv.ParseFloat(v, 64); err == nil {
+							schema.Value.Enum = append(schema.Value.Enum, val)
+						} else {
+							logger.Warn("Invalid number value in enum: %s", v)
+						}
+					}
+				default:
+					for _, v := range enumValues {
+						schema.Value.Enum = append(schema.Value.Enum, v)
+					}
 				}
 			}
 		case "oneof":
